@@ -161,7 +161,7 @@ def apply_op(obj, op):
     if k == "expand":
         return obj.expand_dims(axis=op["pos"]), np.expand_dims(a0, op["pos"])
     if k == "reduce":
-        fn = op["fn"] if not (np.iscomplexobj(a0) and op["fn"] == "max") else "sum"
+        fn = op["fn"] if not (np.iscomplexobj(a0) and op["fn"] in ("max", "min")) else "sum"
         ax = op["axis"]
         kd = bool(op.get("keepdims", False))
         return getattr(obj, fn)(axis=ax, keepdims=kd), getattr(np, fn)(a0, axis=ax, keepdims=kd)
@@ -203,7 +203,7 @@ def reference_raises(obj, op):
             items = tuple(py_item(it) for it in op["items"])
             r = a[items]
         elif k == "reduce":
-            fn = op["fn"] if not (np.iscomplexobj(np.zeros(1, a.dtype)) and op["fn"] == "max") else "sum"
+            fn = op["fn"] if not (np.iscomplexobj(np.zeros(1, a.dtype)) and op["fn"] in ("max", "min")) else "sum"
             r = getattr(a, fn)(axis=op["axis"], keepdims=bool(op.get("keepdims", False)))
         else:
             return False
